@@ -384,7 +384,7 @@ theorem Ok_quantizeRnn {ks ts : List String} {l₀ l : PyVal} {look : Look} {bit
 
 /-- the keys any branch may write inside `config` -/
 def allKeys : List String :=
-  ["kernel_quantizer", "depthwise_quantizer", "bias_quantizer", "activation", "use_bias", "folding_mode",
+  ["kernel_quantizer", "depthwise_quantizer", "pointwise_quantizer", "bias_quantizer", "activation", "use_bias", "folding_mode",
    "ema_freeze_delay", "recurrent_quantizer", "state_quantizer", "recurrent_activation", "layer",
    "backward_layer", "total_bits", "max_value", "negative_slope", "threshold", "alpha",
    "gamma_quantizer", "beta_quantizer", "mean_quantizer", "variance_quantizer", "average_quantizer"]
@@ -423,15 +423,46 @@ theorem Ok_bidirBackward {ks ts : List String} {l₀ l : PyVal} {look : Look} {b
     · exact Ok_pure hI
   · exact Ok_throw
 
+theorem Ok_bidirApply {ks ts : List String} {l : PyVal} {F : Flags} {look : Look}
+    (h0 : "class_name" ∈ ts) (h1 : "layer" ∈ ks) (h2 : "backward_layer" ∈ ks) :
+    Ok (bidirApply F look l) (fun l' => Eff ks ts l l') := by
+  unfold bidirApply
+  wp_any; wp_any; wp_any
+  refine Ok_bind (Ok_conseq (Ok_setCfg (Eff.refl ks ts l) h1) (fun l1 hl1 => ?_))
+  refine Ok_bind (Ok_conseq (Ok_bidirBackward hl1 h2) (fun l2 hl2 => ?_))
+  exact Ok_setCls hl2 h0
+
 theorem Ok_bidirBranch {ks ts : List String} {l : PyVal} {F : Flags} {look : Look} {st : Option String}
     (h0 : "class_name" ∈ ts) (h1 : "layer" ∈ ks) (h2 : "backward_layer" ∈ ks) :
     Ok (bidirBranch F look st l) (fun r => Eff ks ts l r.1) := by
   unfold bidirBranch
-  wp_any; wp_any; wp_any
-  refine Ok_bind (Ok_conseq (Ok_setCfg (Eff.refl ks ts l) h1) (fun l1 hl1 => ?_))
-  refine Ok_bind (Ok_conseq (Ok_bidirBackward hl1 h2) (fun l2 hl2 => ?_))
-  refine Ok_bind (Ok_conseq (Ok_setCls hl2 h0) (fun l3 hl3 => ?_))
-  exact Ok_pure hl3
+  wp_any
+  split
+  · exact Ok_pure (Eff.refl ks ts l)
+  · refine Ok_bind (Ok_conseq (Ok_bidirApply h0 h1 h2) (fun l1 hl1 => ?_))
+    exact Ok_pure hl1
+
+theorem Ok_sepApply {ks ts : List String} {l₀ l dq pq bq : PyVal} {look : Look} {bits qn : String}
+    (hI : Eff ks ts l₀ l) (h0 : "class_name" ∈ ts) (h1 : "depthwise_quantizer" ∈ ks)
+    (h1' : "pointwise_quantizer" ∈ ks) (h2 : "bias_quantizer" ∈ ks) (h3 : "activation" ∈ ks) :
+    Ok (sepApply look bits qn dq pq bq l) (fun l' => Eff ks ts l₀ l') := by
+  unfold sepApply
+  refine Ok_bind (Ok_conseq (Ok_setCls hI h0) (fun l1 hl1 => ?_))
+  refine Ok_bind (Ok_conseq (Ok_setCfg hl1 h1) (fun l2 hl2 => ?_))
+  refine Ok_bind (Ok_conseq (Ok_setCfg hl2 h1') (fun l3 hl3 => ?_))
+  refine Ok_bind (Ok_conseq (Ok_setCfg hl3 h2) (fun l4 hl4 => ?_))
+  exact Ok_actStep hl4 h3
+
+theorem Ok_sepBranch {ks ts : List String} {l : PyVal} {F : Flags} {look : Look} {cn : String}
+    (h0 : "class_name" ∈ ts) (h1 : "depthwise_quantizer" ∈ ks) (h1' : "pointwise_quantizer" ∈ ks)
+    (h2 : "bias_quantizer" ∈ ks) (h3 : "activation" ∈ ks) :
+    Ok (sepBranch F look cn l) (fun r => Eff ks ts l r.1) := by
+  unfold sepBranch
+  wp_any; wp_any; wp_any; wp_any; wp_any
+  split
+  · exact Ok_pure (Eff.refl ks ts l)
+  · refine Ok_bind (Ok_conseq (Ok_sepApply (Eff.refl ks ts l) h0 h1 h1' h2 h3) (fun l1 hl1 => ?_))
+    exact Ok_pure hl1
 
 theorem Ok_adaptiveApply {ks ts : List String} {l₀ l q : PyVal}
     (hI : Eff ks ts l₀ l) (h1 : "total_bits" ∈ ks) (h2 : "activation" ∈ ks) :
@@ -564,6 +595,8 @@ theorem Ok_branch {l : PyVal} {F : Flags} {look : Look} {bnIn : R Bool} {st : Op
     · split
       · exact Ok_convBranch (by decide) (by decide) (by decide) (by decide) (by decide) (by decide) (by decide)
       · split
+        · exact Ok_sepBranch (by decide) (by decide) (by decide) (by decide) (by decide)
+        split
         · refine Ok_bind (Ok_conseq (Ok_quantizeRnn (Eff.refl allKeys topKeys l) (by decide) (by decide)
             (by decide) (by decide) (by decide) (by decide) (by decide) (by decide)) (fun l1 hl1 => ?_))
           exact Ok_pure hl1
@@ -589,7 +622,7 @@ theorem Ok_fixRegistered {ks ts : List String} {l₀ l : PyVal} {st : Option Str
   dsimp only
   split
   · split
-    · exact Ok_throw
+    · exact Ok_setItem_top hr hk (by decide)
     · exact Ok_setItem_top hr hk (by decide)
   · exact Ok_pure hr
 
